@@ -35,6 +35,12 @@ def groSlices (w : Nat) : List RSlice :=
   (groNames.zip (groTypes.zip (groSliceBounds 0 (groWidths ++ [w, w, w])))).map
     fun (n, t, b) => (⟨n, t, b.1, b.2⟩ : RSlice)
 
+/-- … once it has counted six points (velocities) -/
+def groSlicesV (w : Nat) : List RSlice :=
+  ((groNames ++ groVelNames).zip ((groTypes ++ ([.float, .float, .float] : List RTy)).zip
+      (groSliceBounds 0 (groWidths ++ [w, w, w] ++ [w, w, w])))).map
+    fun (n, t, b) => (⟨n, t, b.1, b.2⟩ : RSlice)
+
 /-! ## record_length_const on the extracted format strings -/
 
 theorem atom_fmt_allTrunc : allTrunc atomFmt = true ∧ allTrunc terFmt = true ∧ allTrunc groFmt = true := by
